@@ -1302,6 +1302,20 @@ func randomSpec(rnd *h.Rand, nmin, nmax int, nested bool) *graphSpec {
 			if g.Stages[j].Outcome == oFail {
 				g.Stages[j].Outcome = oOK
 			}
+		} else if n >= 2 && rnd.Chance(40) {
+			// another stage includes a pipeline of its own (two different inner pipelines may run side by side)
+			j := (k + 1 + rnd.Intn(n-1)) % n
+			other := randomSpec(rnd, 2, 3, false)
+			for i := range other.Stages {
+				other.Stages[i].Name = "j" + other.Stages[i].Name[1:]
+				for d := range other.Stages[i].Deps {
+					other.Stages[i].Deps[d] = "j" + other.Stages[i].Deps[d][1:]
+				}
+			}
+			g.Stages[j].Nested = other
+			if g.Stages[j].Outcome == oFail {
+				g.Stages[j].Outcome = oOK
+			}
 		}
 	}
 	return g
@@ -1491,6 +1505,25 @@ func modeSched(a args) {
 					})
 				}
 			}
+		}
+	}
+	// 2e. two stages that include two DIFFERENT pipelines and run side by side: the one that began first may end first
+	// or last - whichever ends, the stages of the other still wait for their own dependencies; every completion order
+	for _, xo := range []int{oOK, oFailAllow} {
+		for _, shape := range []int{0, 1, 2} {
+			xo, shape := xo, shape
+			add(func() {
+				left := &graphSpec{Stages: []stageSpec{{Name: "l1", Outcome: xo}}}
+				right := &graphSpec{Stages: []stageSpec{{Name: "r1", Outcome: oOK}, {Name: "r2", Outcome: oOK, Deps: []string{"r1"}}, {Name: "r3", Outcome: oOK, Deps: []string{"r2"}}}}
+				if shape >= 1 {
+					left.Stages = append(left.Stages, stageSpec{Name: "l2", Outcome: oOK, Deps: []string{"l1"}})
+				}
+				g := &graphSpec{Stages: []stageSpec{{Name: "a", Outcome: oOK, Nested: left}, {Name: "b", Outcome: oOK, Nested: right}}}
+				if shape == 2 {
+					g.Stages = append(g.Stages, stageSpec{Name: "c", Outcome: oOK, Nested: &graphSpec{Stages: []stageSpec{{Name: "m1", Outcome: oOK}, {Name: "m2", Outcome: oOK, Deps: []string{"m1"}}}}}, stageSpec{Name: "t", Outcome: oOK, Deps: []string{"a", "b"}})
+				}
+				explore(a, st, g, true, 0, nil, false)
+			})
 		}
 	}
 	// 3. cancelled runs (C03): Cancel / condition error at every explorer state of small DAGs
